@@ -1,5 +1,6 @@
 import LentilVerif.Model.Basic
 import LentilVerif.Gen.Rule07
+import LentilVerif.Gen.PowerSpectrum
 /-! Executable model of the seeded random models of `lentil/detector.py` and `lentil/wfe.py` for C18: each function is a
 **deterministic wrapper around an uninterpreted sampler** (`draw`, `z`, `fpn`, `x` below stand for what
 `np.random.default_rng(seed).poisson/normal/lognormal` return — pure functions of the seed and the parameters, contract of
@@ -51,8 +52,9 @@ def countNonzero (nz : K → Bool) (n : Nat) (f : Nat → K) : Nat := ((List.ran
 `opd *= mask ; opd = opd * sqrt(count_nonzero(opd) / sum(|opd|^2)) * rms` -/
 def powerSpectrum [Zero K] [Add K] [Mul K] (nz : K → Bool) (sqrt : K → K) (div : K → K → K) (ofNat : Nat → K) (rms : K) (mask : Nat → K)
     (x : Int → Nat → K) (seed : Int) (n : Nat) (i : Nat) : K :=
-  let opd : Nat → K := fun i => x seed i * mask i
-  opd i * sqrt (div (ofNat (countNonzero nz n opd)) (sumRange n fun i => opd i * opd i)) * rms
+  -- both steps are the REGENERATED translations of the source lines (Gen/PowerSpectrum.lean: psMaskStep, psNormalise)
+  let opd : Nat → K := fun i => Gen.psMaskStep (x seed i) (mask i)
+  Gen.psNormalise sqrt div (opd i) (ofNat (countNonzero nz n opd)) (sumRange n fun i => opd i * opd i) rms
 
 /-- the accumulation of `cosmic_rays`: `img = zeros(shape); for ray: img += _cosmic_ray(...)`, each ray frame being zeros plus
 `electron_flux * dist` at the pixels the ray crosses. `deps` lists (flattened pixel, flux, distance) of every deposit in the
